@@ -75,6 +75,9 @@ def generate(rng, tier, idx):
             faults.append([rng.choice(['drop', 'dup', 'move', 'insert', 'cut', 'nofinal', 'crlf', 'lead-blank', 'trail-blank',
                                        'trail-entry', 'lead-entry', 'undash', 'adddash', 'inject-hdr', 'concat', 'trail-ws',
                                        'flip-body', 'swap-sig', 'sig-entry', 'long-line', 'long-line', 'long-blank', 'long-blank', 'trail-nul', 'lf-to-other', 'lf-to-other']), rng.randrange(0, 1000), rng.randrange(0, 1000)])
+        if any('\U0001F600' in l for l in payload) and rng.random() < 0.6:
+            # the line with multi-byte characters padded to just under the limit counted in characters
+            faults.append(['long-line-mb', rng.randrange(0, 1000), rng.choice([6, 7])])
         return {'prop': ID, 'mode': 'real', 'order_key': '0', 'payload': payload, 'final_nl': rng.random() < 0.85,
                 'faults': faults, 'not_dash_escaped': rng.random() < 0.15, 'verify': True}
     if rng.random() < 0.75:
@@ -360,10 +363,12 @@ def apply_fault(lines, f, sc):
         lines.insert(i, ['DATA injected 1', '', 'Hash: SHA1', '- DATA dashed 2', '-----BEGIN PGP SIGNATURE-----', BS, EG, 'junk'][b % 8])
     elif k == 'cut':
         del lines[i:]
-    elif k == 'long-line':
+    elif k in ('long-line', 'long-line-mb'):
         # a signed line padded beyond the peer's own line-length limit (gpg reads text lines in ~20000-byte pieces and
         # does not hash trailing blanks), followed by tokens the signer never saw
         body = [j for j, l in enumerate(lines) if l.startswith(('DATA ', 'IGNORE ', 'DIST ', '- DATA', 'TIMESTAMP '))]
+        if k == 'long-line-mb':
+            body = [j for j in body if any(ord(ch_) > 127 for ch_ in lines[j])]
         if body:
             j = body[a % len(body)]
             pad = (19990, 19996, 20000, 20100, 40000, 65536, -16000, -16300)[b % 8]
